@@ -11,6 +11,8 @@ import hashlib
 import os
 from dataclasses import dataclass, field
 
+from . import canon
+
 
 class AnalysisError(Exception):
     """The analysis itself cannot proceed (anchor vanished, idiom unknown)."""
@@ -126,6 +128,10 @@ class Program:
                 if is_pkg:
                     parts = parts[:-1]
                 name = ".".join(parts)
+                # locals are alpha-renamed to the reviewed tree's names (sa/canon.py): a renamed variable changes no verdict
+                canon.unelse(tree)          # canonical control-flow form (no else after a leaving branch)
+                canon.normalise_comparisons(tree)   # not (a in b) == a not in b, ...
+                canon.canonicalise(tree, name)
                 mod = Module(name, path, rel, tree, src, is_pkg)
                 self.modules[name] = mod
                 self.by_relpath[rel] = mod
